@@ -232,10 +232,21 @@ def _plain(e, name) -> bool:
             and not e.keywords and _is_name(e.args[0], name))
 
 
-def _store_xfer(e, name, where) -> str:
+def _store_xfer(e, name, where, tree=None, depth=0) -> str:
     """What `self._x = <e>` does to the seed held by `name`.  Unknown shapes fail closed."""
     if _plain(e, name):
         return XID
+    if tree is not None and depth < 3 and isinstance(e, ast.Call) and isinstance(e.func, ast.Name) \
+            and len(e.args) + len(e.keywords) == 1 and _is_name((e.args + [k.value for k in e.keywords])[0], name):
+        # a validating helper of the same module: [guards that only raise]; return <expr of its parameter>
+        hs = [f for f in tree.body if isinstance(f, ast.FunctionDef) and f.name == e.func.id]
+        if len(hs) == 1 and len(hs[0].args.args) == 1 and not hs[0].decorator_list:
+            p = hs[0].args.args[0].arg
+            body = [st for st in norm.ifelse_to_ifexp(norm.guards_to_ifelse(body_no_doc(hs[0])))
+                    if not isinstance(st, ast.Pass)
+                    and not (isinstance(st, ast.If) and not st.orelse and all(isinstance(x, ast.Raise) for x in st.body))]
+            if len(body) == 1 and isinstance(body[0], ast.Return) and body[0].value is not None:
+                return _store_xfer(body[0].value, p, where, tree, depth + 1)
     if _is_none(e):
         return XDROP
     if isinstance(e, ast.IfExp):
@@ -283,7 +294,7 @@ def _ctor_store(tree, cls, attr, where):
     if len(found) != 1:
         raise TranslationError(f"{where}: __init__ stores {attr} {len(found)} times")
     field, v = found[0]
-    return _store_xfer(v, attr, f"{where}.__init__"), field
+    return _store_xfer(v, attr, f"{where}.__init__", tree), field
 
 
 def _getter(tree, cls, attr, field) -> str:
@@ -329,7 +340,7 @@ def _setter(tree, cls, attr, field, where):
         fail(st, f"{where}: setter does not end in an assignment")
     if field is None or ast.unparse(tgt) != field:
         return XDROP                                      # stores somewhere the getter does not read
-    return _store_xfer(v, val, f"{where} setter")
+    return _store_xfer(v, val, f"{where} setter", tree)
 
 
 def _builder(repo, fname, cls, where) -> str:
@@ -350,7 +361,7 @@ def _override(repo) -> str:
     """run.apply_overrides: a mode key ends in `setattr(obj, att, value)` with the loop's own value."""
     tree = parse(repo, "pyxel/run.py")
     fn = find_func(tree, "apply_overrides")
-    loops = [n for n in ast.walk(fn) if isinstance(n, ast.For) and ast.unparse(n.iter) == "overrides.items()"]
+    loops = [n for n in ast.walk(fn) if isinstance(n, ast.For) and ast.unparse(norm.resolve(fn, n.iter)) == "overrides.items()"]
     if len(loops) != 1 or not isinstance(loops[0].target, ast.Tuple) or len(loops[0].target.elts) != 2:
         raise TranslationError("apply_overrides: expected one `for key, value in overrides.items()`")
     val = ast.unparse(loops[0].target.elts[1])
